@@ -79,6 +79,18 @@ def node_classes(m: Model):
         def pair(self):
             return (self['world1'], self['world2'])
 
+        def __hash__(self):          # as proof.common.Node: identity semantics
+            return id(self)
+
+        def __eq__(self, other):
+            return self is other
+
+        def __ne__(self, other):
+            return self is not other
+
+        def __bool__(self):
+            return True
+
     def build(name):
         if name in built:
             return built[name]
